@@ -121,11 +121,11 @@ theorem step_ret_len {c : Cfg} {t txt st} (h : step c = .ret t txt st) :
     simp only [Step.ret.injEq] at h
     obtain ⟨rfl, rfl, rfl⟩ := h
     cases ctxt <;> simp [StrictOK, entryState]
-  | quote =>
+  | quote il =>
     cases ctxt with
     | nil => simp at h
     | cons x rest =>
-      simp only at h; repeat' split at h
+      cases il <;> simp only at h <;> repeat' split at h
       all_goals first | (cases h; done) | (cases h; simp [StrictOK, entryState])
   | dollar =>
     cases ctxt with
@@ -184,13 +184,17 @@ theorem step_cont_len {c c' : Cfg} (h : step c = .cont c') :
       cases il <;> simp only at h <;> repeat' split at h
       all_goals (cases h; prog)
   | «at» => simp at h
-  | quote =>
+  | quote il =>
     cases ctxt with
     | nil => simp at h
     | cons x rest =>
       simp only at h
       split at h
-      · cases h
+      · cases il <;> simp only [Bool.false_eq_true, ↓reduceIte] at h
+        · cases h
+        · split at h
+          · cases h; simp [StrictOK]
+          · cases h
       · split at h
         · split at h
           · cases h
